@@ -7,7 +7,7 @@ use proptest::prelude::*;
 use serde::{Deserialize, Serialize};
 
 use crate::engine::{Ctx, Outcome, Property, Tier};
-use crate::peers::{connect_proxy_then_tls, https_proxy, tls_server};
+use crate::peers::{connect_proxy_then_tls, https_proxy, https_proxy_then_tls, tls_server};
 
 /// (fixture, chains to the fixture root, expired, name matches `localhost`, name matches `127.0.0.1`)
 pub const CERTS: &[(&str, bool, bool, bool, bool)] = &[
@@ -30,7 +30,8 @@ pub struct Case {
     pub invalid_certs: bool,
     pub invalid_hostnames: bool,
     pub add_root: bool,
-    /// 0 direct https, 1 CONNECT tunnel through a plain proxy, 2 https proxy presenting the certificate
+    /// 0 direct https, 1 CONNECT tunnel through a plain proxy, 2 https proxy presenting the certificate (http origin),
+    /// 3 https proxy presenting the certificate and carrying a CONNECT tunnel to an https origin that presents `good`
     pub route: u8,
     /// where the flags / root are set: 0 session, 1 this request, 2 sibling request created before, 3 sibling created after, 4 session after the request was created
     pub place: u8,
@@ -39,6 +40,10 @@ pub struct Case {
     /// with add_root: the certificate that is added is the presented leaf itself (a pinned certificate), not the CA
     #[serde(default)]
     pub pin_leaf: bool,
+    /// waivers withdrawn again on the request after they were set (on the session or on the request itself):
+    /// bit 0 danger_accept_invalid_certs(false), bit 1 danger_accept_invalid_hostnames(false)
+    #[serde(default)]
+    pub withdraw: u8,
 }
 
 pub struct C14;
@@ -82,12 +87,38 @@ pub fn all_cases() -> Vec<Case> {
                     for route in 0..3u8 {
                         for place in 0..5u8 {
                             for host_form in 0..2u8 {
-                                v.push(Case { cert, invalid_certs, invalid_hostnames, add_root, route, place, host_form, pin_leaf: false });
+                                v.push(Case { cert, invalid_certs, invalid_hostnames, add_root, route, place, host_form, pin_leaf: false, withdraw: 0 });
                                 if add_root {
-                                    v.push(Case { cert, invalid_certs, invalid_hostnames, add_root, route, place, host_form, pin_leaf: true });
+                                    v.push(Case { cert, invalid_certs, invalid_hostnames, add_root, route, place, host_form, pin_leaf: true, withdraw: 0 });
                                 }
                             }
                         }
+                    }
+                }
+            }
+        }
+    }
+    // the https proxy that carries a tunnel: the proxy hop itself must be authenticated before the CONNECT request is sent
+    for cert in 0..CERTS.len() as u8 {
+        for invalid_certs in [false, true] {
+            for invalid_hostnames in [false, true] {
+                for add_root in [false, true] {
+                    for place in 0..5u8 {
+                        for host_form in 0..2u8 {
+                            v.push(Case { cert, invalid_certs, invalid_hostnames, add_root, route: 3, place, host_form, pin_leaf: false, withdraw: 0 });
+                        }
+                    }
+                }
+            }
+        }
+    }
+    // a waiver that was given and then withdrawn is not in force (direct route; set on the session or the request, withdrawn on the request)
+    for cert in 0..CERTS.len() as u8 {
+        for (invalid_certs, invalid_hostnames, withdraw) in [(true, false, 1u8), (true, true, 1), (false, true, 2), (true, true, 2), (true, true, 3)] {
+            for add_root in [false, true] {
+                for place in 0..2u8 {
+                    for host_form in 0..2u8 {
+                        v.push(Case { cert, invalid_certs, invalid_hostnames, add_root, route: 0, place, host_form, pin_leaf: false, withdraw });
                     }
                 }
             }
@@ -125,8 +156,8 @@ impl Property for C14 {
     type Case = Case;
     const ID: &'static str = "C14";
     const RULE: &'static str = "configuration matrix {chains to the added root, wrong name, self-signed, unknown issuer, expired, each with matching / differing name, valid for only one of the two names of the peer} x accept_invalid_certs x accept_invalid_hostnames x root added {no, the CA, the presented certificate itself} x \
-route {direct https, inside a CONNECT tunnel through a plain proxy, https proxy presenting the certificate} x where the flags/root were set {session, this request, sibling request created before / after, session after the request was created} x \
-contacted host {localhost, 127.0.0.1}: 3600 cells per TLS backend, each a real TLS handshake against a rustls server on a loopback socket; both tiers run all cells of both backends. Oracle = the truth table, both directions. \
+route {direct https, inside a CONNECT tunnel through a plain proxy, https proxy presenting the certificate for an http origin and for a tunnelled https origin} x where the flags/root were set {session, this request, sibling request created before / after, session after the request was created} x \
+contacted host {localhost, 127.0.0.1}: 4800 cells per TLS backend (3600 of the product, 800 for an https proxy that carries a CONNECT tunnel, 400 with a waiver given and then withdrawn on the request), each a real TLS handshake against a rustls server on a loopback socket; both tiers run all cells of both backends. Oracle = the truth table, both directions. \
 non-trivial = at least one danger flag, an added root or a non-valid certificate; distinct by cell";
 
     fn assumptions() -> Vec<String> {
@@ -179,7 +210,7 @@ non-trivial = at least one danger flag, an added root or a non-valid certificate
 
     fn strategy(_tier: Tier) -> BoxedStrategy<Case> {
         (0u8..CERTS.len() as u8, any::<bool>(), any::<bool>(), any::<bool>(), 0u8..3, 0u8..5, 0u8..2)
-            .prop_map(|(cert, invalid_certs, invalid_hostnames, add_root, route, place, host_form)| Case { cert, invalid_certs, invalid_hostnames, add_root, route, place, host_form, pin_leaf: false })
+            .prop_map(|(cert, invalid_certs, invalid_hostnames, add_root, route, place, host_form)| Case { cert, invalid_certs, invalid_hostnames, add_root, route, place, host_form, pin_leaf: false, withdraw: 0 })
             .boxed()
     }
 
@@ -191,7 +222,8 @@ non-trivial = at least one danger flag, an added root or a non-valid certificate
         let mut peer = match case.route {
             0 => tls_server(fixture),
             1 => connect_proxy_then_tls(fixture),
-            _ => https_proxy(fixture),
+            2 => https_proxy(fixture),
+            _ => https_proxy_then_tls(fixture),
         };
         let port = peer.port();
         attohttpc::verif_hooks::set_resolver(Some(Box::new(move |d, p| if d == "localhost" { Some(vec![SocketAddr::from(([127, 0, 0, 1], p))]) } else { None })));
@@ -199,7 +231,9 @@ non-trivial = at least one danger flag, an added root or a non-valid certificate
             0 => (format!("https://{host}:{port}/x"), attohttpc::ProxySettings::builder().build()),
             // the origin's port is never dialled: the proxy answers for it
             1 => (format!("https://{host}:4443/x"), attohttpc::ProxySettings::builder().https_proxy(url::Url::parse(&format!("http://127.0.0.1:{port}")).unwrap()).build()),
-            _ => ("http://origin.test/x".to_string(), attohttpc::ProxySettings::builder().http_proxy(url::Url::parse(&format!("https://{host}:{port}")).unwrap()).build()),
+            2 => ("http://origin.test/x".to_string(), attohttpc::ProxySettings::builder().http_proxy(url::Url::parse(&format!("https://{host}:{port}")).unwrap()).build()),
+            // the origin inside the tunnel presents `good`, valid for the name it is addressed by
+            _ => ("https://localhost:4443/x".to_string(), attohttpc::ProxySettings::builder().https_proxy(url::Url::parse(&format!("https://{host}:{port}")).unwrap()).build()),
         };
         // where the settings go
         let mut session = attohttpc::Session::new();
@@ -230,6 +264,13 @@ non-trivial = at least one danger flag, an added root or a non-valid certificate
                 rb
             }
         };
+        let mut rb = rb;
+        if case.withdraw & 1 != 0 {
+            rb = rb.danger_accept_invalid_certs(false);
+        }
+        if case.withdraw & 2 != 0 {
+            rb = rb.danger_accept_invalid_hostnames(false);
+        }
         let res = rb.send();
         let outcome = match res {
             Ok(r) => {
@@ -245,24 +286,30 @@ non-trivial = at least one danger flag, an added root or a non-valid certificate
         peer.join();
         let seen = peer.seen.lock().unwrap().clone();
 
-        let (ic, ih, root) = if effective { (case.invalid_certs, case.invalid_hostnames, case.add_root) } else { (false, false, false) };
+        let (ic, ih, root) = if effective { (case.invalid_certs && case.withdraw & 1 == 0, case.invalid_hostnames && case.withdraw & 2 == 0, case.add_root) } else { (false, false, false) };
         let pinned = root && case.pin_leaf;
         let want_ok = ic || ((chains && !expired && root && !pinned) && (name_ok || ih));
         // a pinned leaf (the presented certificate itself added as a root): whether that makes the chain trusted differs
         // between TLS libraries and is accepted either way - but never for an expired certificate or a wrong name
         let pinned_may_succeed = pinned && !ic && !expired && (name_ok || ih);
-        let route = ["direct", "tunnel", "https-proxy"][case.route as usize % 3];
+        let route = ["direct", "tunnel", "https-proxy", "https-proxy-tunnel"][case.route as usize % 4];
         let place = ["session", "request", "sibling-before", "sibling-after", "session-after"][case.place as usize % 5];
         let describe = format!(
-            "[{}] cert {fixture} (chains {chains}, expired {expired}, name matches {name_ok}), host {host}, route {route}, flags set on {place} (accept_invalid_certs {}, accept_invalid_hostnames {}, root added {}), effective for this request: {effective}",
-            backend(), case.invalid_certs, case.invalid_hostnames, case.add_root
+            "[{}] cert {fixture} (chains {chains}, expired {expired}, name matches {name_ok}), host {host}, route {route}, flags set on {place} (accept_invalid_certs {}, accept_invalid_hostnames {}, root added {}), withdrawn on the request (bits certs/hostnames): {}, effective for this request: {effective}",
+            backend(), case.invalid_certs, case.invalid_hostnames, case.add_root, case.withdraw
         );
         ctx.nontrivial = case.invalid_certs || case.invalid_hostnames || case.add_root || case.cert != 0;
         ctx.label(match case.route {
             0 => "route:direct",
             1 => "route:tunnel",
-            _ => "route:https-proxy",
+            2 => "route:https-proxy",
+            _ => "route:https-proxy-tunnel",
         });
+        ctx.label_if(case.withdraw != 0, "waiver-withdrawn");
+        // the proxy hop of route 3 was not authenticated: nothing, not even the CONNECT request, may have been sent to it
+        if case.route == 3 && !want_ok && seen.connect_head.is_some() {
+            return Outcome::fail(format!("C14:{}:connect-sent-to-unauthenticated-proxy", backend()), describe);
+        }
         ctx.label_if(!effective, "flags-set-elsewhere");
         ctx.label_if(want_ok, "must-succeed");
         ctx.label_if(!want_ok, "must-fail");
